@@ -5,7 +5,7 @@
 From Coq Require Import String List Bool Arith ZArith QArith Qcanon.
 From AL Require Import Base.CaseLib C20.Model C20.Spec C20.Check C20.Lib.
 From AL Require Import C20.ProofsMav C20.ProofsAmdf C20.ProofsEnv C20.ProofsClip C20.ProofsZc C20.ProofsUw.
-From AL Require Import C20.ProofsLin C20.ProofsCheck C20.ProofsMulti.
+From AL Require Import C20.ProofsLin C20.ProofsCheck C20.ProofsMulti C20.ProofsC04.
 Import ListNotations.
 Open Scope Qc_scope.
 
@@ -302,3 +302,61 @@ Theorem C20_maverage_deque_calls_independent : forall c size ops (ins : list (Qc
   = firstn (count_occ Nat.eq_dec ops i) (mav_deque c size zero xs).
 Proof. exact mav_deque_calls_independent. Qed.
 Print Assumptions C20_maverage_deque_calls_independent.
+
+(* ---------------------------------------------------------------- tie to C04's model of LinearFilter.__call__
+   M4 = AL.C04.Model: [M4.run_filter b a mem zero xs] is list(ZFilter(b, a)(xs, memory=mem, zero=zero)) as C04
+   models it (string builder [codegen] + interpreter of the generated loop).  For every filter-based tool the
+   C20 model's output IS C04's output on the coefficient lists the tool builds; proved from C04's
+   difference-equation theorem (C04.ProofsCtor.lists_diffeq = C04_lists_diffeq) and uniqueness of the solution. *)
+Theorem C20_maverage_fir_is_c04_filter : forall c size zero xs, c <> 0 -> (1 <= size)%nat ->
+  M4.run_filter (repeat c size) [1] M4.MNone zero xs = M4.Ok (mav_fir c size zero xs).
+Proof. exact maverage_fir_is_c04_filter. Qed.
+Print Assumptions C20_maverage_fir_is_c04_filter.
+
+(* (1./size) * (1 - z^-size) / (1 - z^-1): b = [c; 0; ...; 0; -c], a = [1; -1], memory None -> [zero] *)
+Theorem C20_maverage_recursive_is_c04_filter : forall c size zero xs, (1 <= size)%nat ->
+  M4.run_filter ([c] ++ repeat 0 (size - 1) ++ [- c]) [1; - (1)] M4.MNone zero xs
+  = M4.Ok (mav_recursive c size zero xs).
+Proof. exact maverage_recursive_is_c04_filter. Qed.
+Print Assumptions C20_maverage_recursive_is_c04_filter.
+
+Theorem C20_lowpass_is_c04_filter : forall g a1 u, g <> 0 \/ a1 <> 0 ->
+  M4.run_filter [g] [1; a1] M4.MNone 0 u = M4.Ok (lowpass_call g a1 u).
+Proof. exact lowpass_is_c04_filter. Qed.
+Print Assumptions C20_lowpass_is_c04_filter.
+
+Theorem C20_envelope_is_c04_filter : forall s g a1 xs, g <> 0 \/ a1 <> 0 ->
+  exists ys,
+    M4.run_filter [g] [1; a1] M4.MNone 0
+      (match s with EAbs => map qabs xs | _ => map (fun v => v * v) xs end) = M4.Ok ys
+    /\ envelope s g a1 xs = match s with ERms => map Sqrt ys | _ => map Plain ys end.
+Proof. exact envelope_is_c04_filter. Qed.
+Print Assumptions C20_envelope_is_c04_filter.
+
+Theorem C20_accumulate_z_is_c04_filter : forall xs,
+  M4.run_filter [1] [1; - (1)] M4.MNone 0 xs = M4.Ok (accumulate AZ xs).
+Proof. exact accumulate_z_is_c04_filter. Qed.
+Print Assumptions C20_accumulate_z_is_c04_filter.
+
+(* amdf: C04's filter for (1 - z^-lag).linearize() (coefficient list lag_b), abs, deque moving average *)
+Theorem C20_amdf_is_c04_filter : forall c size zero lag xs, (1 <= size)%nat -> 0 <= lag ->
+  exists ys, M4.run_filter (lag_b (lagspec_of lag)) [1] M4.MNone zero xs = M4.Ok ys
+             /\ amdf c size zero lag xs = Ok (mav_deque c size zero (map qabs ys)).
+Proof. exact amdf_is_c04_filter. Qed.
+Print Assumptions C20_amdf_is_c04_filter.
+
+(* the formula as a COROLLARY of C04's difference-equation theorem (no C20 model involved):
+   whatever C04's generated loop outputs for b = [c]*size, a = [1] is c * (sum of the last size samples) *)
+Theorem C20_fir_formula_from_c04 : forall c size zero xs ys, c <> 0 -> (1 <= size)%nat ->
+  M4.run_filter (repeat c size) [1] M4.MNone zero xs = M4.Ok ys -> ys = mav_spec c size zero xs.
+Proof. exact fir_formula_from_c04. Qed.
+Print Assumptions C20_fir_formula_from_c04.
+
+(* non-vacuity: C04's interpreter run on the maverage.fir coefficients, size 3, zero 1 *)
+Example C20_example_c04_fir :
+  match M4.run_filter (repeat (qc 1 3) 3) [1] M4.MNone (qc 1 1) [qc 3 1; qc 6 1; qc (-3) 1; qc 9 1] with
+  | M4.Ok ys => qlist_eqb ys [qc 5 3; qc 10 3; qc 2 1; qc 4 1]
+  | M4.Err _ => false
+  end = true /\ Qc_eqb (qc 1 3) 0 = false.
+Proof. split; vm_compute; reflexivity. Qed.
+Print Assumptions C20_example_c04_fir.
